@@ -678,9 +678,37 @@ def ldu(load_v, name):
       f_ = formula.bool_formula(t, lambda e: 'UNSPEC' if len(names) == 2 and core.norm(
           e) == '%s is directives.UNSPECIFIED' % names[1] else None)
       cf = cf & (f_ if pol == 'T' else ~f_)
+    # entries that are neither kept nor left at UNSPECIFIED must make the call
+    # fail: they are appended to a list that is tested, and raised on, after the loop
+    def _atoms(e):
+      if len(names) == 2 and core.norm(e) == '%s is directives.UNSPECIFIED' % names[1]:
+        return 'UNSPEC'
+      return None
+    rej = formula.FALSE
+    for st_ in ast.walk(ma.node):
+      if isinstance(st_, ast.Expr) and isinstance(st_.value, ast.Call) and isinstance(
+          st_.value.func, ast.Attribute) and st_.value.func.attr == 'append' and \
+          isinstance(st_.value.func.value, ast.Name):
+        lst_ = st_.value.func.value.id
+        raised = any(isinstance(i_, ast.If) and core.norm(i_.test) == lst_ and any(
+            isinstance(x_, ast.Raise) for x_ in i_.body) for i_ in ma.node.body)
+        if not raised:
+          continue
+        f2 = formula.TRUE
+        for pol, t in formula.path_condition(ma.node, st_):
+          if pol not in ('T', 'F'):
+            continue
+          b_ = formula.bool_formula(t, _atoms)
+          f2 = f2 & (b_ if pol == 'T' else ~b_)
+        rej = rej | f2
+    cf = formula.TRUE
+    for pol, t in lv['conds']:
+      f_ = formula.bool_formula(t, _atoms)
+      cf = cf & (f_ if pol == 'T' else ~f_)
     ok = len(names) == 2 and src.startswith('inspect.getcallargs(') and \
         src.endswith('.items()') and core.norm(elt) == '(%s, %s)' % tuple(names) and \
-        formula.equivalent(cf, ~formula.atom('UNSPEC'))[0]
+        formula.implies(~formula.atom('UNSPEC'), cf | rej)[0] and \
+        formula.implies(cf, ~formula.atom('UNSPEC'))[0]
   rep.check(ok, 'OPTS', '%s:keeps-every-specified-argument' % ma.site,
             'the directive annotation must hold every bound argument of the '
             'directive call except those left at UNSPECIFIED', facts,
